@@ -2,7 +2,7 @@
    and EqualityMore.v (undirected labelled class, both multigraphs, both weighted graphs - all eight classes use the same base-class operator==). *)
 From BG Require Import Base DirectedModel DirectedProofs DirectedIter DirectedUsers DirectedSpec DirectedRefine DirectedObs Equality
   UndirectedModel UndirectedProofs UndirectedIter UndirectedSpec UndirectedRefine UndirectedObs
-  MultiModel WeightedModel MultiSpec Totals MultiRefine WeightedRefine UTotals UMultiRefine UWeightedRefine Instances EqualityMore.
+  MultiModel WeightedModel MultiSpec Totals MultiRefine WeightedRefine UTotals UMultiRefine UWeightedRefine Instances EqualityMore EqualityTrans.
 Local Open Scope Z_scope.
 
 (* On any two graphs satisfying the invariant (with a label store that is a map), the model of operator== - sizes, cached edge numbers,
@@ -31,6 +31,16 @@ Theorem C06_refl_sym : forall (L : Type) (leqb : L -> L -> bool) hs (g h : @dgra
   ((forall x y, leqb x y = leqb y x) -> graph_eqb leqb g h = graph_eqb leqb h g).
 Proof. intros L leqb hs g h Ig Ih Kg Kh. split; [intros R; apply (graph_eqb_refl leqb hs g R Ig Kg)|intros S; apply (graph_eqb_sym leqb hs g h S Ig Ih Kg Kh)]. Qed.
 Print Assumptions C06_refl_sym.
+
+(* ... and transitive whenever the label type's == is: with the two above, operator== is an equivalence relation on the graphs any valid
+   history can produce (the middle graph labels every pair the outer two label, because the store's keys are exactly the edges - the very
+   clause of the invariant the repaired stale-label defects used to break) *)
+Theorem C06_trans : forall (L : Type) (leqb : L -> L -> bool) hs (g h k : @dgraph L),
+  (forall x y z, leqb x y = true -> leqb y z = true -> leqb x z = true) ->
+  Inv hs g -> Inv hs h -> Inv hs k -> KeysOK g -> KeysOK h -> KeysOK k ->
+  graph_eqb leqb g h = Val true -> graph_eqb leqb h k = Val true -> graph_eqb leqb g k = Val true.
+Proof. intros L leqb hs g h k T Ig Ih Ik Kg Kh Kk; apply (graph_eqb_trans leqb hs g h k T Ig Ih Ik Kg Kh Kk). Qed.
+Print Assumptions C06_trans.
 
 (* ---- the other classes ---- *)
 (* undirected labelled class: the verdict on any two states satisfying the symmetric invariant; KeysOK (the label store is a map) is kept by
